@@ -354,6 +354,13 @@ func (fr *Frame) builtin(b *ssa.BasicBlock, name string, c *ssa.CallCommon, st *
 	case "print", "println":
 		return nil
 	case "close":
+		// closing a nil or an already closed channel panics
+		ch := args[0].S
+		key := vc.ghostKey("Gh|chclosed")
+		fr.safe("close", reach, sAnd(sNot(sEq(ch, bvConst(0, 64))), sNot(vc.readCell(st, key, ch))), pos)
+		if !fr.pure {
+			vc.writeCell(st, key, ch, "true")
+		}
 		return nil
 	case "ssa:wrapnilchk":
 		fr.checkNonNil(b, vc.valTerm(args[0]), reach, pos)
